@@ -62,10 +62,12 @@ func Stateful() []Table {
 	sur2 := M{"bfac": 0.6, "coeff": 20, "dseep": 0.2, "fcFrac": 0.1, "fimp": 0, "rfac": 0.9, "smax": 25, "sq": 6, "thres": 0}
 	add("Surm", RainPet, 1, sur, sur2)
 
-	srL := [][]float64{{0, 0, 0, 0}, {0.5, 0, 0, 0}, {20, 0, 0, 0}, {500, 3, 0, 0}, {20, 0, 10, 0}, {0.5, 0, 0, 8}}
+	// last letter: no flow and enough evaporation to take a small reach below its dead storage down to exactly empty
+	srL := [][]float64{{0, 0, 0, 0}, {0.5, 0, 0, 0}, {20, 0, 0, 0}, {500, 3, 0, 0}, {20, 0, 10, 0}, {0.5, 0, 0, 8}, {0, 0, 0, 600}}
 	add("StorageRouting", srL, 2,
 		M{"RoutingConstant": 21600, "RoutingPower": 1, "DeltaT": 86400}, M{"RoutingConstant": 86400, "RoutingPower": 0.8, "DeltaT": 86400, "area": 1e4},
-		M{"RoutingConstant": 172800, "RoutingPower": 0.6, "DeltaT": 86400, "deadStorage": 5e4}, M{"RoutingConstant": 86400, "RoutingPower": 0.8, "DeltaT": 86400, "InflowBias": 0.2})
+		M{"RoutingConstant": 172800, "RoutingPower": 0.6, "DeltaT": 86400, "deadStorage": 5e4}, M{"RoutingConstant": 86400, "RoutingPower": 0.8, "DeltaT": 86400, "InflowBias": 0.2},
+		M{"RoutingConstant": 50000, "RoutingPower": 1, "DeltaT": 86400, "area": 1e4, "deadStorage": 5000})
 	muL := gridx.LettersProduct([]float64{0, 10, 50}, []float64{0, 4})
 	add("Muskingum", muL, 1, M{"K": 86400, "X": 0.2, "DeltaT": 86400}, M{"K": 43200, "X": 0, "DeltaT": 86400}, M{"K": 172800, "X": 0.25, "DeltaT": 86400})
 	add("Lag", [][]float64{{0}, {1}, {7}, {3.5}}, 1, M{"timeLag": 0}, M{"timeLag": 1}, M{"timeLag": 2}, M{"timeLag": 3}, M{"timeLag": 5})
@@ -176,7 +178,8 @@ func Stateless() []Table {
 	add("Gate", gridx.LettersProduct([]float64{-1, 0, 1}, []float64{0.3, 7}), M{})
 	add("BaseflowFilter", one, M{})
 	add("ComputeProportion", two, M{"resultOnZeroDenominator": 86400}, M{"resultOnZeroDenominator": 0})
-	add("DateGenerator", [][]float64{{0}}, M{"startDate": 27, "startMonth": 2, "startYear": 2000}, M{"startDate": 30, "startMonth": 12, "startYear": 1999}, M{"startDate": 1, "startMonth": 1, "startYear": 2100})
+	add("DateGenerator", [][]float64{{0}}, M{"startDate": 27, "startMonth": 2, "startYear": 2000}, M{"startDate": 30, "startMonth": 12, "startYear": 1999}, M{"startDate": 1, "startMonth": 1, "startYear": 2100},
+		M{"startDate": 27, "startMonth": 2, "startYear": 2100}, M{"startDate": 27, "startMonth": 2, "startYear": 2001}) // the end of February in a leap year, a century year and an ordinary year
 	add("ClimateVariables", gridx.LettersProduct([]float64{-5, 12, 35}, []float64{20, 80, 100}), M{"elevation": 0}, M{"elevation": 1500}, M{"elevation": 6000})
 	add("RunoffCoefficient", [][]float64{{0}, {2}, {30}}, M{"coeff": 0.35}, M{"coeff": 0.05}, M{"coeff": 1})
 	add("EmcDwc", two, M{"EMC": 250, "DWC": 40}, M{"EMC": 0.1, "DWC": 0}, M{"EMC": 0, "DWC": 0})
